@@ -34,8 +34,8 @@ func init() {
 type c11Case struct {
 	N     int   `json:"n"`
 	M     int   `json:"m"`
-	Order []int `json:"release_order"` // permutation applied to the arrived calls
-	Fail  []int `json:"fail"`          // request indices whose call answers 500
+	Order []int `json:"release_order"`  // permutation applied to the arrived calls
+	Fail  []int `json:"fail"`           // request indices whose call answers 500
 	Wire  int   `json:"wire,omitempty"` // shape of a SUCCESSFUL answer: 0 {data}; 1 {data, errors: []}; 2 {data, errors: null}; 3 {data, extensions: {}}
 }
 
